@@ -73,3 +73,8 @@ claim("C15",
  "Static ownership / escape analysis of the local-variable store, for all rule sets, schedules and pool requests: exactly one map[string]reflect.Value other than the injected table is allocated, per call, in RuleEntity.Execute; every interpreter function passes on only the store it received; such a value is never stored into a field, package variable, container, channel or interface, nor returned; locals are read and written only after the injected table missed the same key, and only Add/PluginLoader/Del write the injected table; every rule of a call runs against the call's own data context. Right level: 'never visible to another execution' is an escape property of one value, decidable from who can hold a reference.",
  "Trusted: go/types + go/ssa. Sound modulo reflect/unsafe use by injected host functions. Goroutines of conc blocks that capture the store are joined (C18).",
  "allocation-site, parameter-threading and escape (who-may-store) analysis over go/ssa; guard analysis of name resolution order")
+
+claim("C09",
+ "Static, for all compilable rule texts and injected data in every execution model: decides the recover discipline (the rule entry point and the four call/assignment evaluators defer, before anything that can panic, a literal that turns recover() into the error result), that every goroutine literal of the product contains nothing that can panic outside a panic-safe worker, that the interpreter is entered from outside package base only through the recovering entry point, engine-level nil/index/window safety (miss edges, dominated length tests, counted indexes, guarded nil-able master), a complete inventory of loops with an established bound for each (range, counted, iterator with a cursor that advances by one, the cut-off for loop, two named loops), WaitGroup count agreement on one snapshot, that collected errors surface in all 21 execute methods, and an acyclic lock-order graph with no pool lock held while rules run. Right level: 'never panics out / never hangs' quantifies over all programs; the recover and loop structure every execution passes through is finite and fully enumerated.",
+ "Trusted: go/types + go/ssa, recover() semantics, reflect panics being ordinary panics. Not decided: termination of injected host functions (assumed by the property), Go-fatal errors that recover cannot catch, stack exhaustion on absurdly deep expression trees.",
+ "recover-discipline (panic-safety) analysis, who-may-call analysis, dominating-guard interval reasoning for indexes, loop inventory with induction-variable recognition, lock-order graph, over go/ssa")
